@@ -35,10 +35,21 @@ def one(name):
 
 
 names = sorted(n for n in os.listdir(os.path.join(V, 'seeded')) if os.path.isdir(os.path.join(V, 'seeded', n)))
+FROM_META = '--from-meta' in sys.argv
+if FROM_META:
+    sys.argv.remove('--from-meta')
 if len(sys.argv) > 1:
     names = [n for n in names if any(a in n for a in sys.argv[1:])]
-with ThreadPoolExecutor(6) as ex:
-    res = list(ex.map(one, names))
+if FROM_META:
+    # rebuild the report from what the last runs recorded in each meta.json (no check is run)
+    res = []
+    for n in names:
+        m = json.load(open(os.path.join(V, 'seeded', n, 'meta.json')))
+        res.append((n, m.get('breaks_property'), m.get('checks_that_fire', m.get('checks_alarming', [])) or [],
+                    m.get('checker_errors_without_violation', []) or [], m.get('first_report', {}) or {}))
+else:
+    with ThreadPoolExecutor(6) as ex:
+        res = list(ex.map(one, names))
 lines = ['# Seeded changes and the checks that catch them', '',
          'Each directory holds patch.diff, demo.rs (fails with the change, passes without) and meta.json. All were written by',
          'independent sub-agents that saw only the property text; each was confirmed in a scratch copy (existing suite still',
